@@ -28,6 +28,10 @@ once      a guarded / #pragma once header included twice through every ordered P
           (x.h ./x.h d/../x.h .//x.h file-symlink dir-symlink absolute, symlink-then-..), also with
           the header itself named on the command line: contents processed once, exported once, no
           diagnostics.
+routes    the same #pragma once / guarded header reached 2 and 3 times through every ordered
+          sequence of ROUTES {cwd-relative quote, includer's directory, -I, -S <>, -S "", absolute,
+          through a symlinked directory}, whose source classes differ (local/alternate/system):
+          contents processed once, exported at most once, no diagnostics, exit 0.
 dirspell  the -I / -S directory spelled through the same alphabet: the same file is found.
 norm      ALL path strings of <= 4 (thorough 5) components over {a, b (symlink to a directory
           elsewhere), f, n (missing), ., .., empty} x leading slash {none, /, absolute prefix} x
@@ -760,6 +764,122 @@ def once_family(ck, b, thorough):
     return n
 
 
+# ----------------------------------------------------------------------------- routes
+# The same physical #pragma once / guarded header (a/b/g.h) reached two and three times through
+# different ROUTES, whose source classes differ (local / alternate / system).
+ROUTES = {                       # name -> (include line, options needed, source class)
+    "cwdq":   ('#include "a/b/g.h"\n', [], "local"),
+    "abs":    (None, [], "local"),                          # filled in with the absolute path
+    "symdir": ('#include "lnk/g.h"\n', [], "local"),      # lnk -> a/b
+    "incdir": ('#include "a/b/inc.h"\n', [], "alternate"),  # a/b/inc.h does #include "g.h"
+    "I":      ('#include "b/g.h"\n', ["-I", "a"], "alternate"),
+    "Sq":     ('#include "g.h"\n', ["-S", "a/b"], "system"),
+    "Sa":     ('#include <g.h>\n', ["-S", "a/b"], "system"),
+}
+ROUTE_ORDER = ["cwdq", "incdir", "I", "Sa", "Sq", "abs", "symdir"]
+
+
+def make_routes_tree(root, variant):
+    t = os.path.join(root, "t")
+    os.makedirs(os.path.join(t, "a", "b"), exist_ok=True)
+    body = ("#pragma once\n" + G_BODY) if variant == "once" else ("#ifndef G_H\n#define G_H\n" + G_BODY + "#endif\n")
+    write(os.path.join(t, "a", "b", "g.h"), body)
+    write(os.path.join(t, "a", "b", "inc.h"), '#include "g.h"\n')
+    os.symlink("a/b", os.path.join(t, "lnk"))
+    return t
+
+
+def run_routes(b, t, outdir, c, tag):
+    lines, opts = [], []
+    for r in c["routes"]:
+        line, o, _ = ROUTES[r]
+        if r == "abs":
+            line = '#include "%s"\n' % os.path.join(t, "a", "b", "g.h")
+        lines.append(line)
+        if o and o not in [opts[i:i + 2] for i in range(0, len(opts), 2)]:
+            opts += o
+    name = "m_%s.h" % tag
+    text = "".join(lines) + ONCE_MARK
+    write(os.path.join(t, name), text)
+    o = {"cwd": t, "includer": text}
+    if c["tool"] == "interrogate":
+        od = os.path.join(outdir, "%s.in" % tag)
+        cmd = [b["interrogate"], "-od", od, "-module", "m", "-library", "l", "-v"] + opts + [name]
+        r = tools.run(cmd, cwd=t, b=b)
+        names, gcount = [], None
+        if r.rc == 0 and os.path.exists(od):
+            try:
+                d = tools.idb_dump(b, [od])
+            except RuntimeError as e:
+                raise HarnessError(str(e))
+            names = sorted(f["name"] for f in d["functions"].values())
+            gcount = names.count("g_fn")
+        try:
+            os.unlink(od)
+        except OSError:
+            pass
+    else:
+        cmd = [b["parse_file"]] + opts + [name]
+        r = tools.run(cmd, cwd=t, b=b)
+        names = sorted(set(re.findall(r"\b(anchor|seen|twice|g_fn)\b", r.out)))
+        gcount = len(re.findall(r"\bg_fn\b", r.out))
+    os.unlink(os.path.join(t, name))
+    o.update({"rc": r.rc, "stderr": r.err[-800:], "cmd": cmd, "names": names, "g_fn": gcount})
+    return o
+
+
+def judge_routes(c, o):
+    bad = []
+    if o["rc"] != 0:
+        bad.append("exit status %s" % o["rc"])
+    if re.search(r"\berror\b|redefin|conflicting|already", o["stderr"]):
+        bad.append("diagnostic: " + o["stderr"].strip().splitlines()[0][:160])
+    if "Cannot find" in o["stderr"]:
+        bad.append("a route did not find the header")
+    if "anchor" not in o["names"]:
+        bad.append("includer's declarations missing")
+    if "seen" not in o["names"]:
+        bad.append("header contents never processed")
+    if "twice" in o["names"]:
+        bad.append("header contents processed twice")
+    # which route decides ownership is not stated by the property: only "at most once" is judged
+    if o["g_fn"] is not None and o["g_fn"] > 1:
+        bad.append("g_fn appears %s times" % o["g_fn"])
+    return bad
+
+
+def routes_family(ck, b, thorough):
+    outdir = ck.scratch("routes-out")
+    jobs = []
+    for variant in ("once", "guard"):
+        t = make_routes_tree(ck.scratch("routes-" + variant), variant)
+        seqs = [list(p) for p in itertools.product(ROUTE_ORDER, repeat=2)]
+        seqs += [list(p) for p in itertools.product(ROUTE_ORDER, repeat=3)]
+        for seq in seqs:
+            for tool in ("interrogate", "parse_file"):
+                jobs.append((t, {"fam": "routes", "variant": variant, "routes": seq, "tool": tool}))
+
+    def keyof(c):
+        return "routes/%s/%s/%s" % (c["tool"], c["variant"], ">".join(c["routes"]))
+
+    def one(job):
+        t, c = job
+        return t, c, run_routes(b, t, outdir, c, re.sub(r"[^A-Za-z0-9]+", "_", keyof(c)))
+    for t, c, o in pmap(one, jobs):
+        bad = judge_routes(c, o)
+        key = keyof(c)
+        classes = [ROUTES[r][2] for r in c["routes"]]
+        # non-trivial: the routes differ in source class
+        ck.note(key, nontrivial=len(set(classes)) > 1,
+                outcome="routes:%s:%s" % (">".join(x[0] for x in classes), "ok" if not bad else "bad"),
+                family="routes-" + c["tool"],
+                sample={"case": c, "observed": {k: o[k] for k in ("rc", "names", "g_fn")}})
+        if bad:
+            ck.fail(key, "; ".join(bad), {"case": c, "observed": "; ".join(bad), "run": o},
+                    confirm=lambda t=t, c=c: bool(judge_routes(c, run_routes(b, t, outdir, c, "confirm_" + c["tool"]))))
+    return len(jobs)
+
+
 # ----------------------------------------------------------------------------- dirspell
 def dir_spellings(t):
     return [("plain", "I1"), ("dot", "./I1"), ("tslash", "I1/"), ("dslash", ".//I1"), ("dotdot", "d/../I1"),
@@ -992,6 +1112,10 @@ def replay(ck, b):
         extend_spell_tree_for_explicit(t)
         o = run_explicit(b, t, out, c, "replay")
         bad = judge_explicit(c, o)
+    elif fam == "routes":
+        t = make_routes_tree(ck.scratch("replay-tree"), c["variant"])
+        o = run_routes(b, t, out, c, "replay")
+        bad = judge_routes(c, o)
     elif fam == "once":
         t = make_once_tree(ck.scratch("replay-tree"), c["variant"])
         o = run_once(b, t, out, c, "replay")
@@ -1031,9 +1155,9 @@ def main():
     if ck.replay:
         return replay(ck, b)
     fams = {"lookup": lookup_family, "explicit": explicit_family, "once": once_family,
-            "dirspell": dirspell_family, "norm": norm_family, "nested": nested_family}
+            "dirspell": dirspell_family, "norm": norm_family, "nested": nested_family, "routes": routes_family}
     counts = {}
-    for name in ("norm", "explicit", "once", "dirspell", "nested", "lookup"):
+    for name in ("norm", "explicit", "once", "routes", "dirspell", "nested", "lookup"):
         if ck.only and name not in ck.only:
             continue
         if ck.expired(reserve=20):
@@ -1043,7 +1167,7 @@ def main():
     ck.extra["family_sizes"] = counts
     return ck.finish(
         rule="one case = one execution of interrogate / parse_file in a constructed directory tree "
-             "(lookup, nested, explicit, once, dirspell) or one path string evaluated by fnorm (norm). "
+             "(lookup, nested, explicit, once, routes, dirspell) or one path string evaluated by fnorm (norm). "
              "Non-trivial: lookup = the number of candidate places holding a copy of x.h is not "
              "exactly one (order, not presence, decides; or nothing may be found); explicit / "
              "dirspell = a spelling other than the plain one; once = two different spellings; "
